@@ -416,6 +416,8 @@ class Executor:
       fr.env['ghost_' + gname] = init(self.ctx())
     for cl in c.requires:
       self.path.assume(cl.fn(ctx))
+    for cl in c.assumes:         # class invariants / global definitions: not checked at call sites
+      self.path.assume(cl.fn(ctx))
     self.entry_hyps = len(self.path.hyps)
     self.path.oblige(f'{c.qual}/vacuity/requires', z3.BoolVal(False),
                      kind='canary', meta={'why': 'precondition must be satisfiable'})
